@@ -12,48 +12,51 @@ Section RegridProofs.
   Variable derive : base -> pos -> pos -> geom.
   Variable f_eq f_class : factory.
   Variable b : base.
+  Variable skeleton : opts -> base.
   (* CONTRACT of optionsfactory: re-creating from the fully evaluated options of the same factory returns them *)
   Hypothesis create_idem : forall s, create f_eq (dict (create f_eq s)) = create f_eq s.
 
-  Notation build := (build settings opts factory base pos geom create dict place f_eq f_class b).
-  Notation redistribute := (redistribute settings opts factory base pos geom create dict place stale f_eq f_class b).
-  Notation calculateRZ := (calculateRZ opts pos geom).
-  Notation geometry := (geometry opts base pos geom derive b).
-  Notation run := (run settings opts factory base pos geom create dict place stale derive f_eq f_class b).
-  Notation step := (step settings opts factory base pos geom create dict place stale derive f_eq f_class b).
-  Notation observe := (observe opts base pos geom derive b).
-  Notation mesh := (mesh opts pos geom).
-  Notation contour := (contour opts pos geom).
-  Notation rz := (rz opts pos geom).
-  Notation geo := (geo opts pos geom).
+  Notation build := (build settings opts factory base pos geom create dict place f_eq f_class b skeleton).
+  Notation redistribute := (redistribute settings opts factory base pos geom create dict place stale f_eq f_class).
+  Notation calculateRZ := (calculateRZ opts base pos geom).
+  Notation geometry := (geometry opts base pos geom derive).
+  Notation run := (run settings opts factory base pos geom create dict place stale derive f_eq f_class).
+  Notation step := (step settings opts factory base pos geom create dict place stale derive f_eq f_class).
+  Notation observe := (observe opts base pos geom derive).
+  Notation mesh := (mesh opts base pos geom).
+  Notation contour := (contour opts base pos geom).
+  Notation bs := (bs opts base pos geom).
+  Notation rz := (rz opts base pos geom).
+  Notation geo := (geo opts base pos geom).
 
   (* the flags the proof needs, as the source has them now *)
   Definition flags_ok : bool :=
     region_factory_shared && region_options_from_equilibrium && equilibrium_reset_fresh && region_reset_fresh && distribute_resets_first &&
     redistribute_all_regions && distribute_no_early_return && distribute_regrids_every_contour && distribute_keeps_sfunc_orthogonal &&
-    sfunc_orthogonal_written_at_build_only && redistribute_refreshes_RZ && calculateRZ_refills_all && geometry_recomputes_all && geometry_reentrant.
+    sfunc_orthogonal_written_at_build_only && redistribute_refreshes_RZ && calculateRZ_refills_all && geometry_recomputes_all && geometry_reentrant &&
+    skeleton_ignores_nonorthogonal_settings.
 
   Definition Inv (s : settings) (m : mesh) : Prop :=
-    contour m = place b (create f_eq s) /\ (rz m = None \/ rz m = Some (contour m)).
+    bs m = b /\ contour m = place b (create f_eq s) /\ (rz m = None \/ rz m = Some (contour m)).
 
   Ltac flags H := unfold flags_ok in H; repeat (apply andb_prop in H; destruct H as [H ?]).
   Ltac use_flags := repeat match goal with E : ?x = true |- _ => rewrite ?E; clear E end.
 
   Lemma build_inv (H : flags_ok = true) s : Inv s (build s).
   Proof.
-    flags H. unfold Inv, Model_Regrid.build, f_region. cbn [Model_Regrid.contour Model_Regrid.rz].
-    use_flags. rewrite create_idem. split; [reflexivity | left; reflexivity].
+    flags H. unfold Inv, Model_Regrid.build, f_region. cbn [Model_Regrid.contour Model_Regrid.rz Model_Regrid.bs].
+    use_flags. rewrite create_idem. split; [reflexivity | split; [reflexivity | left; reflexivity]].
   Qed.
 
   Lemma step_inv (H : flags_ok = true) s m o : Inv s m -> exists m', step (Some m) o = Some m' /\ Inv (last_settings settings s [o]) m'.
   Proof.
-    flags H. intros [Hc Hr]. destruct o as [s'| |]; cbn [last_settings Model_Regrid.step].
+    flags H. intros (Hb & Hc & Hr). destruct o as [s'| |]; cbn [last_settings Model_Regrid.step].
     - eexists. split; [reflexivity|]. unfold Inv, Model_Regrid.redistribute, Model_Regrid.calculateRZ, f_region.
-      use_flags. cbn [andb Model_Regrid.contour Model_Regrid.rz]. split; [reflexivity | right; reflexivity].
-    - eexists. split; [reflexivity|]. unfold Inv, Model_Regrid.calculateRZ. cbn [Model_Regrid.contour Model_Regrid.rz].
-      use_flags. split; [exact Hc | right; reflexivity].
+      use_flags. cbn [andb Model_Regrid.contour Model_Regrid.rz Model_Regrid.bs]. rewrite Hb. split; [reflexivity | split; [reflexivity | right; reflexivity]].
+    - eexists. split; [reflexivity|]. unfold Inv, Model_Regrid.calculateRZ. cbn [Model_Regrid.contour Model_Regrid.rz Model_Regrid.bs].
+      use_flags. split; [exact Hb | split; [exact Hc | right; reflexivity]].
     - unfold Model_Regrid.geometry. use_flags. cbn [negb]. rewrite andb_false_r. eexists. split; [reflexivity|].
-      unfold Inv. cbn [Model_Regrid.contour Model_Regrid.rz]. split; [exact Hc|]. right. destruct Hr as [-> | ->]; reflexivity.
+      unfold Inv. cbn [Model_Regrid.contour Model_Regrid.rz Model_Regrid.bs]. split; [exact Hb|]. split; [exact Hc|]. right. destruct Hr as [-> | ->]; reflexivity.
   Qed.
 
   Lemma last_settings_app s ops o : last_settings settings s (ops ++ [o]) = last_settings settings (last_settings settings s ops) [o].
@@ -69,9 +72,9 @@ Section RegridProofs.
   Lemma observe_inv (H : flags_ok = true) s m : Inv s m ->
     observe (Some m) = Some (Some (place b (create f_eq s)), Some (derive b (place b (create f_eq s)) (place b (create f_eq s)))).
   Proof.
-    flags H. intros [Hc Hr]. unfold Model_Regrid.observe, Model_Regrid.geometry.
-    use_flags. cbn [negb]. rewrite andb_false_r. cbn [Model_Regrid.rz Model_Regrid.geo Model_Regrid.contour].
-    destruct Hr as [-> | ->]; rewrite Hc; reflexivity.
+    flags H. intros (Hb & Hc & Hr). unfold Model_Regrid.observe, Model_Regrid.geometry.
+    use_flags. cbn [negb]. rewrite andb_false_r. cbn [Model_Regrid.rz Model_Regrid.geo Model_Regrid.contour Model_Regrid.bs].
+    destruct Hr as [-> | ->]; rewrite Hc, Hb; reflexivity.
   Qed.
 
   (* no history raises, and what is observed at its end is what a fresh build with the last settings shows *)
